@@ -6,10 +6,12 @@ CONSTANTS
   Modes = {"error", "warning", "silent"}
   BadValues = {"bogus"}
   MaxLen = 3
+  UserTransforms = {"ureg"}
   DoExport = FALSE
 INVARIANT HistoryIndependent
 INVARIANT ConfigValid
 INVARIANT Export
 PROPERTY Frozen
 PROPERTY ConfigDiscipline
+PROPERTY RegistryDiscipline
 CHECK_DEADLOCK FALSE
